@@ -48,16 +48,14 @@ class InterpolatedCurveBase(FunctionCurveBase, abc.ABC):
         """Returns the length of this curve by summing distance between
         points. The 'count' parameter is ignored as the original points are taken."""
         param_from, param_to = self._get_params(param_from, param_to)
+        param_start = min(param_from, param_to)
+        param_end = max(param_from, param_to)
 
-        index_from = int(param_from * self.segments) + 1
-        index_to = int(param_to * self.segments)
+        # original points lie at parameters the interpolator has assigned to them
+        # (not evenly spaced unless the points are)
+        between = [t for t in self.function.params if param_start < t < param_end]
 
-        if index_from < index_to:
-            indexes = list(range(index_from, index_to + 1))
-        else:
-            indexes = []
-
-        params = [param_from, *[i / self.segments for i in indexes[:-1]], param_to]
+        params = [param_start, *between, param_end]
         return f.polyline_length(np.array([self.function(t) for t in params]))
 
 
